@@ -269,7 +269,7 @@ func nfEnv() []string {
 
 func loadForNF(repo string, overlay map[string][]byte) (*packages.Package, *token.FileSet, error) {
 	fset := token.NewFileSet()
-	cfg := &packages.Config{Mode: packages.LoadSyntax, Dir: repo, Env: nfEnv(), Fset: fset, Overlay: overlay}
+	cfg := &packages.Config{Mode: packages.LoadSyntax, Dir: repo, Env: nfEnv(), Fset: fset, Overlay: withBase(overlay)}
 	pkgs, err := packages.Load(cfg, "./pkg/ggql")
 	if err != nil {
 		return nil, nil, err
@@ -322,6 +322,7 @@ func (nf *nfPass) src(file string) []byte {
 }
 
 func (nf *nfPass) readFiles(overlay map[string][]byte) {
+	overlay = withBase(overlay)
 	for _, f := range nf.p.Syntax {
 		name := nf.fset.Position(f.Pos()).Filename
 		if b, ok := overlay[name]; ok {
@@ -1124,7 +1125,7 @@ var unusedImportRe = regexp.MustCompile(`^(.*\.go):(\d+):\d+: "([^"]+)" imported
 
 func unusedImports(repo string, overlay map[string][]byte) (map[string][]string, error) {
 	fset := token.NewFileSet()
-	cfg := &packages.Config{Mode: packages.LoadSyntax, Dir: repo, Env: nfEnv(), Fset: fset, Overlay: overlay}
+	cfg := &packages.Config{Mode: packages.LoadSyntax, Dir: repo, Env: nfEnv(), Fset: fset, Overlay: withBase(overlay)}
 	pkgs, err := packages.Load(cfg, "./pkg/ggql")
 	if err != nil {
 		return nil, err
